@@ -26,7 +26,13 @@ class PathView:
         if t in self._memo:
             return self._memo[t]
         r = t
-        if t[0] == "phi":
+        g = self.prog._phi_unwrap_or(t, self.body) if t[0] == "phi" and hasattr(self.prog, "_phi_unwrap_or") else None
+        if g is not None and not _const_default(g):
+            g = None      # both arms carry information: keep the value that flows in along this path
+        if g is not None:
+            # a match that is an unwrap_or: the normal form is path independent
+            r = self.resolve(g, depth + 1)
+        elif t[0] == "phi":
             b = t[1]
             i = self.pos.get(b)
             if self.keep_headers and self.body.cfg.loop_of_header(b) is not None:
@@ -95,6 +101,18 @@ class PathView:
             cal = self.body.callee(b)
             out.append((b, cal.name, self.call_args(b), hit))
         return out
+
+
+def _const_default(g):
+    """g is o.unwrap_or(<literal>) (or the saturating_sub it normalises to)."""
+    if g[0] != "call":
+        return False
+    if g[1] == "usize::saturating_sub":
+        return True
+    if g[1] == "Option::unwrap_or" and len(g[2]) == 2:
+        d = g[2][1]
+        return d[0] in ("int", "float", "char", "bool", "str") or (d[0] == "adt" and not d[3])
+    return False
 
 
 def loop_paths(body, lm, limit=5000):
